@@ -245,16 +245,17 @@ struct Obs
 template< typename RS, typename Input, template< typename... > class Act, pegtl::apply_mode A, pegtl::rewind_mode M >
 static Obs run_one( const std::string& s )
 {
-   Obs o;
    const size_t n = s.size();
    char* p = g_guard - n;
    memcpy( p, s.data(), n );
    g_probe = Probe();
    if( sigsetjmp( g_jmp, 0 ) ) {
-      o.faulted = true;
-      o.fault_guard = g_fault_in_guard;
-      return o;
+      Obs f;  // fresh object: locals modified after sigsetjmp are indeterminate after the jump
+      f.faulted = true;
+      f.fault_guard = g_fault_in_guard;
+      return f;
    }
+   Obs o;
    g_armed = 1;
    try {
       Input in( p, p + n, "src" );
